@@ -392,7 +392,7 @@ class LoaderModel(explorer.Model):
             want = observe(xtuml, e.replica)
             d = first_diff(want, now)
             if d:
-                kind = 'later-build' if (op[0] == 'build' and k == len(w.mms) - 1) else 'differs-from-fresh-loader'
+                kind = 'later-build' if (op[0] == 'build' and k == len(w.mms) - 1 and k > 0) else 'differs-from-fresh-loader'
                 bad(kind, 'metamodel %d (built after chunks %s, own mutations %s) differs from a fresh loader fed the same '
                     'chunks with the same mutations: %s' % (k, e.chunks, json.dumps([o[2:] for o in e.muts]), d), want, now)
                 ok = False
@@ -510,7 +510,7 @@ def coverage(ctx):
         inputs_after_a_build=ctx.n('inputs_after_a_build'), rejected_inputs=ctx.n('rejected_inputs'),
         states_with_several_metamodels=ctx.n('states_with_several_metamodels'),
         identity_facts_recorded=ctx.nd('identity_facts'),
-        search=note,
+        search=dict(note, bound='depth bound (the stated bound of the tier); closed would mean no new state appeared'),
         bounds=dict(depth=DEPTH[ctx.tier], live_metamodels=2 if ctx.quick else 3, chunks=3, rejected_chunk=1,
                     new_per_class_and_metamodel=1 if ctx.quick else 2, palette=ctx.seed % len(PALETTES)),
         exhaustive=not ctx.caps_hit,
